@@ -331,7 +331,8 @@ impl Exec {
         r is Ok ==> final(w).s.parked =~= old(w).s.parked.union(r->Ok_0.0.ends@) && final(w).s.inheritable == old(w).s.inheritable, //[C12]
         // an Exec with neither output configured gets its stdout piped, so capture() has something to read
         r is Ok ==> (self.config.stdout is None && self.config.stderr is None ==> r->Ok_0.0.out_piped@),
-        r is Ok ==> r->Ok_0.0.out_piped@ == (self.config.stdout is Pipe || (self.config.stdout is None && self.config.stderr is None)) && r->Ok_0.0.err_piped@ == (self.config.stderr is Pipe),
+        // C02: a stream that was not piped is reported as absent -- exactly the requested streams are captured
+        r is Ok ==> r->Ok_0.0.out_piped@ == (self.config.stdout is Pipe || (self.config.stdout is None && self.config.stderr is None)) && r->Ok_0.0.err_piped@ == (self.config.stderr is Pipe), //[C02,C16]
         r is Err ==> final(w).s == old(w).s,
 //@end
 
